@@ -44,14 +44,37 @@ route add rdb rd2.com/ https://to3.com$path opts "redirect=301"
 route add rdc rd3.com/ https://$host$path opts "redirect=308"
 route add rdd rd4.com/ http://$host/new$path?x=1 opts "redirect=307 strip=/g"`
 
+// access rules shared by all requests of a route: three allow blocks / three deny blocks
+const c06AccessRoutes = `
+route add acl acl.com/ http://acl:80/ opts "allow=ip:10.0.0.0/8,ip:192.168.0.0/16,ip:172.16.0.0/12"
+route add dcl dcl.com/ http://dcl:80/ opts "deny=ip:10.0.0.0/8,ip:192.168.0.0/16,ip:172.16.0.0/12"`
+
+// address classes of the specification: "in-k" lies in block k, "out" in none
+var c06Addrs = map[string]string{"in-1": "10.1.2.3", "in-2": "192.168.7.7", "in-3": "172.20.1.1", "out": "8.8.8.8"}
+
+func c06Access(t *Target, class string, deny bool) string {
+	req := &http.Request{RemoteAddr: c06Addrs[class] + ":4711", Header: http.Header{}, URL: &url.URL{Path: "/"}}
+	denied := t.AccessDeniedHTTP(req)
+	// for the deny-list route the roles are swapped: addresses inside a block are rejected
+	if deny {
+		denied = !denied
+	}
+	if denied {
+		return "denied"
+	}
+	return "admitted"
+}
+
 // the documented forms of a redirect target that mention the request
 var c06RedirectHosts = []string{"rd.com", "rd2.com", "rd3.com"}
 
 func TestVerifC06Trace(t *testing.T) {
-	tbl, err := newTableFromText(c06Table)
+	tbl, err := newTableFromText(c06Table + c06AccessRoutes)
 	if err != nil {
 		t.Fatal(err)
 	}
+	acl, dcl := tbl["acl.com"][0].Targets[0], tbl["dcl.com"][0].Targets[0]
+	classes := []string{"in-1", "out", "in-2", "in-3"}
 	rr := tbl["rr.com"][0]
 	var ring []string
 	for _, x := range rr.wTargets {
@@ -72,7 +95,15 @@ func TestVerifC06Trace(t *testing.T) {
 			defer wg.Done()
 			<-start
 			for i := 0; i < ops; i++ {
-				switch (i + g) % 3 {
+				switch (i + g) % 4 {
+				case 3:
+					class := classes[(i/4+g)%len(classes)]
+					tr.Add(map[string]any{"ev": "Inv", "g": g, "op": "access", "arg": class})
+					res := c06Access(acl, class, false)
+					if (i/4)%2 == 1 {
+						res = c06Access(dcl, class, true)
+					}
+					tr.Add(map[string]any{"ev": "Ret", "g": g, "res": res})
 				case 0:
 					tr.Add(map[string]any{"ev": "Inv", "g": g, "op": "pick", "arg": ""})
 					tg := tbl.Lookup(c06Req("rr.com", "/x"), "", rrPicker, prefixMatcher, lgc, false)
@@ -238,5 +269,45 @@ func TestVerifC06Stress(t *testing.T) {
 		verifx.Fail(map[string]any{"keys": len(keys)}, map[string]any{"sub": "stress", "clause": "cache-size"},
 			"host-pattern cache of size 8 holds %d patterns (n=%d h=%d)", len(keys), gc.n, gc.h)
 	}
-	verifx.Summary(map[string]any{"rr_lookups": total, "ring": U, "lookups": atomic.LoadInt64(&lookups), "swaps": atomic.LoadInt64(&swaps), "cache_keys": len(keys)})
+	// (d) access decisions over rule lists shared by all requests, (e) the random picker
+	at, err := newTableFromText("route add r1 rnd.com/ http://r1:80/\nroute add r2 rnd.com/ http://r2:80/ weight 0.2\nroute add r3 rnd.com/ http://r3:80/" + c06AccessRoutes)
+	if err != nil {
+		t.Fatal(err)
+	}
+	aclT, dclT := at["acl.com"][0].Targets[0], at["dcl.com"][0].Targets[0]
+	classes := []string{"in-1", "in-2", "in-3", "out"}
+	var decisions int64
+	for g := 0; g < G; g++ {
+		wg.Add(1)
+		go func(g int) {
+			defer wg.Done()
+			class := classes[g%len(classes)]
+			want := "admitted"
+			if class == "out" {
+				want = "denied"
+			}
+			gcr := NewGlobCache(8)
+			for i := 0; i < iters*4; i++ {
+				if got := c06Access(aclT, class, false); got != want {
+					verifx.Fail(map[string]any{"g": g, "i": i}, map[string]any{"sub": "stress", "clause": "access-own", "list": "allow"},
+						"a request from %s (%s) was %s by the allow list while other requests were being decided; its own decision is %s", c06Addrs[class], class, got, want)
+				}
+				if got := c06Access(dclT, class, true); got != want {
+					verifx.Fail(map[string]any{"g": g, "i": i}, map[string]any{"sub": "stress", "clause": "access-own", "list": "deny"},
+						"a request from %s (%s): deny list decided %s, its own decision is %s", c06Addrs[class], class, got, want)
+				}
+				atomic.AddInt64(&decisions, 2)
+				if p, stack := verifx.Safely(func() {
+					tg := at.Lookup(c06Req("rnd.com", "/"), "", Picker["rnd"], prefixMatcher, gcr, false)
+					if tg == nil || !strings.HasPrefix(tg.Service, "r") {
+						verifx.Fail(map[string]any{"g": g, "i": i}, map[string]any{"sub": "stress", "clause": "rnd-member"}, "random pick returned %v", tg)
+					}
+				}); p != nil {
+					verifx.Fail(map[string]any{"g": g, "i": i}, map[string]any{"sub": "stress", "clause": "rnd-panic"}, "random picker panicked under concurrent lookups: %v\n%s", p, stack)
+				}
+			}
+		}(g)
+	}
+	wg.Wait()
+	verifx.Summary(map[string]any{"decisions": atomic.LoadInt64(&decisions), "rr_lookups": total, "ring": U, "lookups": atomic.LoadInt64(&lookups), "swaps": atomic.LoadInt64(&swaps), "cache_keys": len(keys)})
 }
